@@ -1,4 +1,4 @@
-#!/usr/bin/env python3
+#!/venv/bin/python
 """Regenerate MANIFEST.json from the property modules (keeps it valid at all times)."""
 import importlib
 import json
